@@ -42,6 +42,21 @@ func shard() (k, n int) {
 // only, the other batches of a long run add random cases.
 func firstBatch() bool { b := os.Getenv("VERIF_BATCH"); return b == "" || b == "0" }
 
+// enumSlot: for exhaustive parts that are too large for one process (file descriptors, see helpers_test.go fatal), the
+// enumeration is spread over all work items of the run: this process takes the cases whose ordinal is slot modulo nslots.
+func enumSlot() (slot, nslots int) {
+	k, n := shard()
+	j, _ := strconv.Atoi(os.Getenv("VERIF_BATCH"))
+	nb, _ := strconv.Atoi(os.Getenv("VERIF_BATCHES"))
+	if nb <= 0 {
+		nb = 1
+	}
+	if j >= nb {
+		j = nb - 1
+	}
+	return k*nb + j, n * nb
+}
+
 // saveReplay writes a JSON replay file for failures found outside rapid (enumerator, tables).
 func saveReplay(property string, v any) string {
 	dir := os.Getenv("VERIF_REPLAY_OUT")
